@@ -400,6 +400,11 @@ class CachedFcn(UserFcn):
     def _same(x, y):
         if x is y:
             return True
+        if type(x) is not type(y):
+            return False
+        if isinstance(x, dict):
+            # a record {"x": 0.5} and a one-row batch {"x": array([0.5])} compare equal with ==
+            return x.keys() == y.keys() and all(CachedFcn._same(x[k], y[k]) for k in x)
         try:
             return bool(np.array_equal(x, y))
         except Exception:
